@@ -110,6 +110,16 @@ impl ast::Visit for Visitor<'_, '_> {
                 }
             },
 
+            // the initializer of a const must have the declared type
+            ast::Item::ConstVar { ty_keyword, vars }
+            if matches!(ty_keyword.value, TypeKeyword::Int | TypeKeyword::Float | TypeKeyword::String) => {
+                for sp_pat!((var, value)) in vars {
+                    if let Err(e) = self.check_single_var_decl(*ty_keyword, var, Some(value)) {
+                        self.errors.set(e);
+                    }
+                }
+            },
+
             _ => ast::walk_item(self, item),
         }
     }
@@ -160,10 +170,16 @@ impl ast::Visit for Visitor<'_, '_> {
 
             ast::StmtKind::CallSub { .. } => unimplemented!("need to check arg types against signature"),
 
-            ast::StmtKind::Block { .. } => {},
-            ast::StmtKind::InterruptLabel { .. } => {},
+            // free-standing blocks contain statements that need checking
+            ast::StmtKind::Block { .. } => ast::walk_stmt(self, stmt),
+
+            | ast::StmtKind::InterruptLabel(expr)
+            | ast::StmtKind::RelTimeLabel { delta: expr, .. } => {
+                if let Err(e) = self.check_cond(expr) {  // (same requirement as a condition: an integer value)
+                    self.errors.set(e);
+                }
+            },
             ast::StmtKind::AbsTimeLabel { .. } => {},
-            ast::StmtKind::RelTimeLabel { .. } => {},
             ast::StmtKind::Label { .. } => {},
             ast::StmtKind::ScopeEnd { .. } => {},
             ast::StmtKind::NoInstruction { .. } => {},
